@@ -36,6 +36,9 @@ type C10Case struct {
 	Frames []Frame `json:"frames,omitempty"`
 	Cuts   []int   `json:"cuts"` // strictly increasing cut offsets inside the stream
 	Tail   string  `json:"tail_hex,omitempty"`
+	// ErrAt: before delivering chunk i (index into the chunk list) the connection reports a
+	// transient read timeout once; the caller retries
+	ErrAt []int `json:"err_at,omitempty"`
 	// bind part
 	Reply    string `json:"reply,omitempty"` // success | error | indication | notstun | badattr
 	Trailing int    `json:"trailing,omitempty"`
@@ -62,6 +65,7 @@ func (f *Frame) bytes() []byte {
 }
 
 type chunkConn struct {
+	errAt     map[int]bool
 	chunks    [][]byte
 	idx       int
 	delivered int
@@ -79,6 +83,11 @@ func (c *chunkConn) Read(b []byte) (int, error) {
 	if c.idx >= len(c.chunks) {
 		return 0, io.EOF
 	}
+	if c.errAt[c.idx] {
+		delete(c.errAt, c.idx)
+
+		return 0, errTransient
+	}
 	ch := c.chunks[c.idx]
 	n := copy(b, ch)
 	if n < len(ch) {
@@ -90,6 +99,14 @@ func (c *chunkConn) Read(b []byte) (int, error) {
 
 	return n, nil
 }
+
+type transientErr struct{}
+
+func (transientErr) Error() string   { return "sim: i/o timeout (transient)" }
+func (transientErr) Timeout() bool   { return true }
+func (transientErr) Temporary() bool { return true }
+
+var errTransient error = transientErr{}
 
 func (c *chunkConn) Write(b []byte) (int, error) {
 	c.written = append(c.written, b...)
@@ -166,13 +183,21 @@ func runFrames(c *C10Case) (string, string) { //nolint:cyclop
 	tail, _ := hex.DecodeString(c.Tail)
 	framesLen := len(stream)
 	stream = append(stream, tail...)
-	conn := &chunkConn{chunks: split(append([]byte{}, stream...), c.Cuts)}
+	conn := &chunkConn{chunks: split(append([]byte{}, stream...), c.Cuts), errAt: map[int]bool{}}
+	for _, e := range c.ErrAt {
+		conn.errAt[e] = true
+	}
 	sc := proto.NewSTUNConn(conn)
 	buf := make([]byte, c10Buf)
 	consumed := 0
 	for i := range want {
 		conn.callsSince = conn.callsSince[:0]
 		n, addr, err := sc.ReadFrom(buf)
+		for retry := 0; retry < 64 && errors.Is(err, errTransient); retry++ {
+			// a read deadline expired while part of a frame was buffered: the caller tries again
+			// and must lose nothing
+			n, addr, err = sc.ReadFrom(buf)
+		}
 		if err != nil {
 			return "frame-error", fmt.Sprintf("ReadFrom #%d returned error %v; expected frame %d of %d (%s, %d bytes)", i, err, i, len(want), c.Frames[i].Kind, len(want[i]))
 		}
@@ -342,6 +367,9 @@ func hashC10(c *C10Case) uint64 {
 	for _, x := range c.Cuts {
 		h = vkit.Mix(h, uint64(x))
 	}
+	for _, x := range c.ErrAt {
+		h = vkit.Mix(h, 0xE0000+uint64(x))
+	}
 
 	return h
 }
@@ -427,6 +455,11 @@ func genC10(rt *rapid.T) *C10Case {
 		total += tl
 	}
 	c.Cuts = genCuts(rt, total)
+	if len(c.Cuts) > 0 && len(c.Cuts) < 64 && rapid.IntRange(0, 3).Draw(rt, "readErrors") == 0 {
+		for k := rapid.IntRange(1, 3).Draw(rt, "nerr"); k > 0; k-- {
+			c.ErrAt = append(c.ErrAt, rapid.IntRange(0, len(c.Cuts)).Draw(rt, "errAt"))
+		}
+	}
 
 	return c
 }
